@@ -34,7 +34,7 @@ fn c19_8a_mapping_clamps_input() {
     kani::cover!(lo < hi && x > hi);
 }
 
-// @ob id=C19.8b,C17.4b strength=bounded tier=quick bound="lo, hi, x restricted to 6 significant mantissa bits, |.| <= 1e6" fn=value.rs::Mapping::map
+// @ob id=C19.8b,C17.4b strength=bounded tier=thorough timeout=3600 bound="lo, hi, x restricted to 4 significant mantissa bits, |.| <= 1e6" fn=value.rs::Mapping::map
 // @req as C19.8a with reduced-precision range bounds and input
 // @ens inputs at or beyond the range end give an amount of exactly 1 (normal and inverted ranges); inputs strictly inside give an amount strictly between... at least within [0,1]
 #[kani::proof]
@@ -42,7 +42,7 @@ fn c19_8a_mapping_clamps_input() {
 #[kani::stub(crate::tween::Easing::apply, easing_apply_rec)]
 #[kani::stub(<f64 as Tweenable>::interpolate, interpolate_f64_rec)]
 fn c19_8b_mapping_clamps_end() {
-    let m6 = (1u64 << 46) - 1;
+    let m6 = (1u64 << 48) - 1;
     let lo = any_f64_in(-1.0e6, 1.0e6);
     let hi = any_f64_in(-1.0e6, 1.0e6);
     let x = any_f64_in(-1.0e7, 1.0e7);
